@@ -14,7 +14,7 @@ PID = "C12"
 LEAN_MODULE = "NiVerif.Props.C12"
 NAMESPACE = "Props.C12"
 DRIVER = "drivers/C12.lean"
-GEN_MODULES = ["ExtProps"]
+GEN_MODULES = ["ExtProps", "AsarrayShim"]
 EXTRA_LEAN_MODULES = ["NiVerif.Model.Heap", "NiVerif.Props.ExtProps"]
 THEOREMS = ["grow_same_cell", "appendGrow_same_cell", "view_cannot_grow", "cellOf_set", "readAt_writeAt", "read_write_other_cell", "writes_frame", "read_alloc_old", "read_alloc_new",
             "alloc_fresh", "copy_true_fresh", "copy_true_succeeds", "copy_true_isolates", "copy_false_shares",
@@ -22,7 +22,10 @@ THEOREMS = ["grow_same_cell", "appendGrow_same_cell", "view_cannot_grow", "cellO
             "window_read_is_buffer", "pick_getElem?", "column_write_lands_in_data", "read_write_same",
             "shared_write_visible", "writeMany_cell", "writeMany_read", "append_lands_in_caller_memory", "append_frame",
             "loadAdopt_shares", "loadCopy_keeps_own_cell", "share_iff",
-            "Props.ExtProps.gen_init_copies", "Props.ExtProps.gen_init_empty"]
+            "Props.ExtProps.gen_init_copies", "Props.ExtProps.gen_init_empty",
+            # T26: the generated NumPy 1.x shim and the asarray call sites (Gen/AsarrayShim.lean)
+            "gen_shim_eq_model", "gen_shim_default", "gen_shim_copy_true_fresh", "gen_shim_no_silent_copy", "gen_sites_pass_flag", "gen_sites_cover",
+            "gen_switch"]
 RULE = ("seeded scenarios: a source (owning 1-D/2-D array, slice, strided, reversed, row, column, memory-mapped file, list / "
         "nested list) x construction or load path (from_array_1d, from_array_2d, raw constructors, load_data on numeric "
         "waveforms / Spectrum / DigitalWaveform, DigitalWaveform.from_lines 1-D and 2-D, from_port(s), XYData and "
@@ -786,6 +789,48 @@ def run_shim(ctx):
             ctx.violation(what="NumPy 1.x asarray shim breaks the copy rule", source=kind, dtype=str(req), copy=copy, observed=show(r)[:200],
                           required="ValueError" if (copy is False and needs) else ("independent copy" if copy else "the same array"))
             return
+    # ---- the generated shim (Gen/AsarrayShim.lean, T26) against the real one: every source kind x requested dtype x copy flag -------
+    import tempfile
+    DTN = {np.dtype(np.int32): 4, np.dtype(np.float64): 8}
+    glines, gwant, gwhat = [], [], []
+    with tempfile.TemporaryDirectory(prefix="niverif_shim_") as td:
+        for sdt in (np.int32, np.float64):
+            base = np.arange(1, 11, dtype=sdt)
+            mm = np.memmap(os.path.join(td, f"m{np.dtype(sdt).name}"), dtype=sdt, mode="w+", shape=(6,))
+            mm[:] = np.arange(6)
+
+            class Sub(np.ndarray):
+                pass
+
+            sources = [("own", base, "arr", 0, 1), ("slice", base[2:7], "arr", 0, 0), ("strided", base[::3], "arr", 0, 0), ("reversed", base[::-1], "arr", 0, 0),
+                       ("memmap", mm, "arr", 1, 0), ("memmap-slice", mm[1:4], "arr", 1, 0), ("subclass", base.view(Sub), "arr", 1, 0),
+                       ("list", [1, 2, 3], "seq", 0, 0), ("tuple", (4, 5), "seq", 0, 0), ("empty-list", [], "seq", 0, 0)]
+            for kind, src, k, sub, owns in sources:
+                for req in (None, np.int32, np.float64):
+                    for copy in (True, False, None):
+                        r = outcome(lambda: _numpy1x.asarray(src, req, copy=copy))
+                        ref = outcome(lambda: np.asarray(src, req, copy=copy))
+                        def cls_(o):
+                            if o[0] != "ok":
+                                return "err " + o[1]
+                            return "shares" if (isinstance(src, np.ndarray) and np.shares_memory(o[1], src)) or (isinstance(src, np.ndarray) and src.size == 0 and o[1] is src) else "fresh"
+                        got = cls_(r)
+                        ctx.case(("shim-gen", kind, str(req), copy))
+                        if got != cls_(ref):
+                            ctx.violation(what="NumPy 1.x asarray shim and NumPy 2's asarray disagree on sharing", source=kind, dtype=str(req), copy=copy,
+                                          observed=got, required=cls_(ref))
+                            return
+                        glines.append(f"gshim {k} {DTN[np.dtype(sdt)] if k == 'arr' else 0} {DTN[np.dtype(req)] if req is not None else '-'} "
+                                      f"{'-' if copy is None else int(copy)} {sub} {owns}")
+                        gwant.append(got)
+            del mm
+    gres = ctx.model(glines, driver="drivers/AsarrayShim.lean")
+    for q, want, got in zip(glines, gwant, gres or []):
+        if got != want:
+            ctx.mismatch(stream="generated NumPy 1.x asarray shim (T26)", request=q, model_says=got, code_says=want)
+            break
+    ctx.extra["generated_shim_lines"] = len(glines)
+    ctx.evaluations += len(glines)
 
 
 def run_props_timing(ctx, lines, expect):
